@@ -202,6 +202,99 @@ theorem regression_modified_again_stays_pending :
     classify [2] [⟨1, 2, 1⟩] 2 = .both 2 2 ∧
     splitFile [⟨2, 2, ['s']⟩] [2] [⟨1, 2, 1⟩] = ([(['s'], [2])], [(['s'], [2])]) := by decide
 
+/-- **regression (an inner line of a staged block modified again; seeded/C04-seed3).** An agent writes lines
+    2–6 (one attributed range), the file is staged, the agent rewrites line 4 in the working tree
+    (`@@ -4 +4 @@`, same line count). Both ENDS of the range translate to the commit unchanged and with the same
+    shift (0) — the inner line does not: it is `.both`, its working-tree version stays pending. A split that
+    translates the two ends of a range and interpolates (the independently written regression) loses it. -/
+theorem regression_inner_line_of_block_modified_again :
+    classify [2, 3, 4, 5, 6] [⟨1, 4, 1⟩] 2 = .committed 2 ∧
+    classify [2, 3, 4, 5, 6] [⟨1, 4, 1⟩] 6 = .committed 6 ∧
+    classify [2, 3, 4, 5, 6] [⟨1, 4, 1⟩] 4 = .both 4 4 ∧
+    splitFile [⟨2, 6, ['s']⟩] [2, 3, 4, 5, 6] [⟨1, 4, 1⟩] = ([(['s'], [2, 3, 4, 5, 6])], [(['s'], [4])]) := by decide
+
+/-! ### a line inside an unstaged hunk is never "just committed" (the general fact behind the regression above) -/
+
+theorem scan_some (w : Nat) (hunks : List Hunk) : ∀ (r a : Nat) (x : Hunk),
+    ∃ y, (scan w hunks r a (some x)).2.2 = some y := by
+  induction hunks with
+  | nil => intro r a x; exact ⟨x, rfl⟩
+  | cons h hs ih =>
+    intro r a x
+    simp only [scan]
+    split
+    · split <;> exact ih _ _ _
+    · split
+      · exact ih _ _ _
+      · split <;> exact ih _ _ _
+
+theorem scan_hit (w : Nat) (hunks : List Hunk) : ∀ (r a : Nat) (i : Option Hunk),
+    (∃ g ∈ hunks, g.ns ≤ w ∧ w < g.ns + g.nc) → ∃ y, (scan w hunks r a i).2.2 = some y := by
+  induction hunks with
+  | nil => intro r a i ⟨g, hg, _⟩; simp at hg
+  | cons h hs ih =>
+    intro r a i ⟨g, hg, h1, h2⟩
+    have tail : g ∈ hs → ∀ r a i, ∃ y, (scan w hs r a i).2.2 = some y :=
+      fun hm r a i => ih r a i ⟨g, hm, h1, h2⟩
+    simp only [List.mem_cons] at hg
+    simp only [scan]
+    by_cases c0 : h.nc = 0
+    · have hm : g ∈ hs := by
+        rcases hg with e | hm
+        · subst e; omega
+        · exact hm
+      rw [if_pos c0]
+      split <;> exact tail hm _ _ _
+    · rw [if_neg c0]
+      by_cases c1 : h.ns + h.nc ≤ w
+      · have hm : g ∈ hs := by
+          rcases hg with e | hm
+          · subst e; omega
+          · exact hm
+        rw [if_pos c1]
+        exact tail hm _ _ _
+      · rw [if_neg c1]
+        by_cases c2 : h.ns ≤ w
+        · rw [if_pos c2]
+          cases i with
+          | none => exact scan_some w hs r a h
+          | some x => exact scan_some w hs r a x
+        · have hm : g ∈ hs := by
+            rcases hg with e | hm
+            · subst e; omega
+            · exact hm
+          rw [if_neg c2]
+          exact tail hm _ _ _
+
+/-- **a working-tree line inside the new range of ANY unstaged hunk is never classified as an unchanged
+    committed line** — for every list of hunks (sorted or not, overlapping or not), every set of committed lines
+    and every line: it is pending (`uncommitted`), pending and credited (`both`), or dropped, never `committed`.
+    Whatever the two ends of the attributed range it belongs to translate to. -/
+theorem line_in_unstaged_hunk_not_committed (committed : List Nat) (hunks : List Hunk) (w : Nat)
+    (hin : ∃ g ∈ hunks, g.ns ≤ w ∧ w < g.ns + g.nc) :
+    (∀ c, locate hunks w ≠ .unchanged c) ∧ (∀ c, classify committed hunks w ≠ .committed c) := by
+  have hloc : ∀ c, locate hunks w ≠ .unchanged c := by
+    intro c
+    obtain ⟨y, hy⟩ := scan_hit w hunks 0 0 none hin
+    unfold locate
+    rcases hsc : scan w hunks 0 0 none with ⟨r, a, i⟩
+    rw [hsc] at hy
+    simp only at hy
+    subst hy
+    simp only
+    split
+    · split <;> simp
+    · simp
+  refine ⟨hloc, ?_⟩
+  intro c
+  unfold classify
+  split
+  · rename_i c' hc'
+    exact absurd hc' (hloc c')
+  · split <;> simp
+  · simp
+  · simp
+
 /-! ### once: the translation is strictly increasing -/
 
 /-- the code's translation agrees with the script on every working-tree line -/
@@ -537,6 +630,8 @@ end GitAi.Sys
 #print axioms GitAi.Split3.regression_unstaged_deletion
 #print axioms GitAi.Split3.regression_unstaged_replacement_above
 #print axioms GitAi.Split3.regression_modified_again_stays_pending
+#print axioms GitAi.Split3.regression_inner_line_of_block_modified_again
+#print axioms GitAi.Split3.line_in_unstaged_hunk_not_committed
 #print axioms GitAi.Split3.locate_strictMono
 #print axioms GitAi.Split3.split_outputs_wf
 #print axioms GitAi.Sys.every_commit_exact
